@@ -4,7 +4,7 @@ import Py4hwV.Gen.Fsm
   C16 model, part 2 — `Axi2Clk` (vitiswrapping.py:133-196): the stream adapter whose transferred beat is a NUMBER OF CLOCK
   PULSES.  Structural gating (same And2/Not/Buf/Or2/Reg as Axi2Reg) around the clocked leaf `Axi2ClkFSM` (lines 92-131):
       IDLE(0) --active_handshake: latch target := TDATA--> RUNNING_LOW(1) --count+1, clk_out=1--> RUNNING_HIGH(2)
-      --clk_out=0; count == target ? END(3) : RUNNING_LOW--> … END --load_outs=1--> IDLE (no handshake: count := 0, clk_out := 0)
+      --clk_out=0; count == target ? END(3) : RUNNING_LOW--> … END --load_outs=1, count := 0--> IDLE (no handshake: count := 0, clk_out := 0)
   `clk_count` is a wire of the block (CW = 64 bits) that the FSM both writes and reads: it is part of the state here.
   `step`  : Nat-level reference;  `stepG` : the same cycle through `Gen.Axi2ClkFSM.step`, GENERATED from `Axi2ClkFSM.clock`
   (bridge `Axi.Clk.stepG_eq_step` in Proofs/C16Clk.lean).  Definitions only.
@@ -53,7 +53,7 @@ def step (c : Cfg) (s : St) (i : In) : St :=
   else if s.state = 2 then                              -- RUNNING_HIGH
     { s with active := active', clk_out := 0, state := if s.count = s.target then 3 else 1 }
   else if s.state = 3 then                              -- END
-    { s with active := active', load_outs := 1, state := 0 }
+    { s with active := active', load_outs := 1, count := 0, state := 0 }     -- clk_count.prepare(0): fix bcd06db
   else { s with active := active' }
 
 def upd (w : Nat) (old : Nat) (o : Option Int) : Nat := match o with | some v => Bits.put w v | none => old
@@ -90,19 +90,18 @@ structure Obs where
 deriving Repr, DecidableEq, Inhabited
 
 inductive Phase where
-  | idle (fresh : Bool)      -- waiting for a beat; fresh = at least one idle cycle since the last load_outs pulse (or power-up)
+  | idle                     -- waiting for a beat
   | high (T k : Nat)         -- k pulses done, the next cycle raises clk_out
   | low (T k : Nat)          -- k pulses started, the next cycle lowers clk_out
   | fin                      -- all T pulses done, the next cycle pulses load_outs
-  | unknown                  -- the monitor does not predict (beat value 0 or ≥ 2^CW; tolerant mode: beat accepted right after END)
+  | unknown                  -- the monitor does not predict (beat value 0 or ≥ 2^CW) until the next load_outs pulse
 deriving Repr, DecidableEq, Inhabited
 
 structure Mon where
   phase : Phase
-  stale : Bool               -- strict mode: the current run started in the cycle right after a load_outs pulse
 deriving Repr, DecidableEq, Inhabited
 
-def Mon.init : Mon := ⟨.idle true, false⟩
+def Mon.init : Mon := ⟨.idle⟩
 
 def accept (o : Obs) (i : In) : Bool := i.tvalid == 1 && o.tready == 1
 def activeNext (o : Obs) (i : In) : Nat :=
@@ -111,40 +110,48 @@ def activeNext (o : Obs) (i : In) : Nat :=
 /-- expected (clk_out, load_outs) after the edge, when the monitor predicts -/
 def expect (m : Mon) : Option (Nat × Nat) :=
   match m.phase with
-  | .idle _ => some (0, 0)
+  | .idle => some (0, 0)
   | .high _ _ => some (1, 0)
   | .low _ _ => some (0, 0)
   | .fin => some (0, 1)
   | .unknown => none
 
-/-- `strict`: a beat accepted in the first idle cycle after a load_outs pulse is expected to behave like any other
-    (the code does not: the counter is not cleared yet — finding C16-axi2clk-stale-count); tolerant: the monitor gives up
-    until the next load_outs pulse. -/
-def monStep (strict : Bool) (CW : Nat) (m : Mon) (o : Obs) (i : In) (o' : Obs) : Mon :=
+/-- the adapter is in the middle of a run -/
+def busy (m : Mon) : Bool :=
   match m.phase with
-  | .idle fresh =>
-    if accept o i then
-      if 1 ≤ i.tdata && i.tdata < 2^CW then
-        if fresh then ⟨.high i.tdata 0, false⟩ else if strict then ⟨.high i.tdata 0, true⟩ else ⟨.unknown, false⟩
-      else ⟨.unknown, false⟩
-    else ⟨.idle true, false⟩
-  | .high T k => ⟨.low T (k + 1), m.stale⟩
-  | .low T k => if k = T then ⟨.fin, m.stale⟩ else ⟨.high T k, m.stale⟩
-  | .fin => ⟨.idle false, false⟩
-  | .unknown => if o'.load_outs == 1 then ⟨.idle false, false⟩ else ⟨.unknown, false⟩
+  | .high _ _ => true
+  | .low _ _ => true
+  | .fin => true
+  | _ => false
 
-def clauses (m : Mon) (o : Obs) (i : In) (o' : Obs) : List (String × Bool) :=
+/-- every beat accepted while idle starts a run — also the one accepted in the cycle right after a load_outs pulse
+    (since fix bcd06db the END state clears the counter) -/
+def monStep (CW : Nat) (m : Mon) (o : Obs) (i : In) (o' : Obs) : Mon :=
+  match m.phase with
+  | .idle =>
+    if accept o i then
+      if 1 ≤ i.tdata && i.tdata < 2^CW then ⟨.high i.tdata 0⟩ else ⟨.unknown⟩
+    else ⟨.idle⟩
+  | .high T k => ⟨.low T (k + 1)⟩
+  | .low T k => if k = T then ⟨.fin⟩ else ⟨.high T k⟩
+  | .fin => ⟨.idle⟩
+  | .unknown => if o'.load_outs == 1 then ⟨.idle⟩ else ⟨.unknown⟩
+
+/-- `strict`: additionally, no beat may be ACCEPTED (VALID ∧ READY) while a run is in progress — such a beat is lost.  The
+    code keeps READY = active during the count (finding C16-axi2clk-accepts-while-counting); the tolerant mode does not judge it. -/
+def clauses (strict : Bool) (m : Mon) (o : Obs) (i : In) (o' : Obs) : List (String × Bool) :=
   [ ("ready_iff_active", o.tready == o.active && o'.tready == o'.active),
     ("active_rule", o'.active == activeNext o i),
     ("clk_out_follows_accepted_beat", match expect m with | some e => o'.clk_out == e.1 | none => true),
-    ("load_outs_after_last_pulse", match expect m with | some e => o'.load_outs == e.2 | none => true) ]
+    ("load_outs_after_last_pulse", match expect m with | some e => o'.load_outs == e.2 | none => true),
+    ("accepted_beat_is_counted", !(strict && accept o i && busy m)) ]
 
 def checkFrom (strict : Bool) (CW : Nat) (m : Mon) (o : Obs) (t : Nat) : List (In × Obs) → Verdict
   | [] => .ok
   | (i, o') :: rest =>
-    match firstFail (clauses m o i o') with
-    | some cl => .fail t cl m.stale
-    | none => checkFrom strict CW (monStep strict CW m o i o') o' (t + 1) rest
+    match firstFail (clauses strict m o i o') with
+    | some cl => .fail t cl false
+    | none => checkFrom strict CW (monStep CW m o i o') o' (t + 1) rest
 
 def check (strict : Bool) (CW : Nat) (o0 : Obs) (tr : List (In × Obs)) : Verdict := checkFrom strict CW Mon.init o0 0 tr
 
